@@ -629,3 +629,149 @@ def work_simplify(chunk):
                                             "trace %s then %s" % (ch["trace"], gc["trace"]))
         out.append(r)
     return out, solver.time_s - t0, nq_total
+
+
+# ---------------------------------------------------------------------------
+# Bytecode (C15): a decoder written from the module documentation only
+
+BC_DOC_BINARY = {"Add", "Sub", "Mul", "Div", "Atan2", "Compare", "Mix", "Mod", "Min", "Max", "And", "Or"}
+BC_DOC_UNARY = {"Neg", "Abs", "Recip", "Sqrt", "Square", "Floor", "Ceil", "Round", "Not", "Rand", "Sin", "Cos", "Tan",
+                "Asin", "Acos", "Atan", "Exp", "Ln"}
+# bytecode opcode name -> context base opcode name
+BC_BASE = {"Atan2": "Atan"}
+
+
+def decode_bytecode(words, optable, reg_count, mem_count):
+    """Independent interpreter of the documented format.  Returns a list of
+    abstract instructions and a list of format problems.
+
+    Doc: list of u32 words, two per operation, forward evaluation order;
+    first two words 0xFFFFFFFF 0x00000000, last two 0xFFFFFFFF 0xFFFFFFFF;
+    word0 bytes: [opcode, out reg, first input reg, second input reg]; an
+    input register byte of 0xFF means 'use the second word as an f32
+    immediate'; Mem uses the 0xFF flag to tell load from store, second word
+    is the memory slot."""
+    problems = []
+    if len(words) < 4 or len(words) % 2:
+        return [], ["bad length %d" % len(words)]
+    if words[0] != 0xFFFFFFFF or words[1] != 0:
+        problems.append("missing start marker")
+    if words[-2] != 0xFFFFFFFF or words[-1] != 0xFFFFFFFF:
+        problems.append("missing end marker")
+    names = {v: k for k, v in optable.items()}
+    prog = []
+
+    def reg(r, what):
+        if r == 0xFF:
+            problems.append("%s uses the reserved register 255" % what)
+        elif r >= reg_count:
+            problems.append("%s register %d >= reg_count %d" % (what, r, reg_count))
+        return r
+
+    for i in range(2, len(words) - 2, 2):
+        w, imm = words[i], words[i + 1]
+        op, o, a, b = w & 0xFF, (w >> 8) & 0xFF, (w >> 16) & 0xFF, (w >> 24) & 0xFF
+        if op not in names:
+            problems.append("unknown opcode %d" % op)
+            continue
+        n = names[op]
+        if n == "Output":
+            prog.append(("output", reg(o, n), imm))
+        elif n == "Input":
+            prog.append(("input", reg(o, n), imm))
+        elif n == "Copy":
+            if a == 0xFF:
+                prog.append(("const", reg(o, n), imm))
+            else:
+                prog.append(("copy", reg(o, n), reg(a, n)))
+        elif n == "Mem":
+            if imm >= mem_count:
+                problems.append("memory slot %d >= mem_count %d" % (imm, mem_count))
+            if a == 0xFF and o != 0xFF:
+                prog.append(("load", reg(o, n), imm))
+            elif o == 0xFF and a != 0xFF:
+                prog.append(("store", reg(a, n), imm))
+            else:
+                problems.append("Mem with ambiguous direction flags %02x %02x" % (o, a))
+        elif n in BC_DOC_UNARY:
+            prog.append(("un", BC_BASE.get(n, n), reg(o, n), reg(a, n)))
+        elif n in BC_DOC_BINARY:
+            base = BC_BASE.get(n, n)
+            if a == 0xFF and b == 0xFF:
+                problems.append("%s with two immediates" % n)
+                continue
+            la = ("imm", imm) if a == 0xFF else ("reg", reg(a, n))
+            lb = ("imm", imm) if b == 0xFF else ("reg", reg(b, n))
+            prog.append(("bin", base, reg(o, n), la, lb))
+        else:
+            problems.append("opcode %s is not covered by the documentation-based decoder" % n)
+    return prog, problems
+
+
+def sym_bytecode(enc, pid, prog, inputs=None):
+    regs = {}
+    mem = {}
+    outs = {}
+
+    def rd(r):
+        if r not in regs:
+            regs[r] = enc.const("bjunk%d_%d" % (pid, r))
+        return regs[r]
+
+    def opnd(x):
+        return bv(x[1]) if x[0] == "imm" else rd(x[1])
+
+    for ins in prog:
+        k = ins[0]
+        if k == "output":
+            outs[ins[2]] = rd(ins[1])
+        elif k == "input":
+            regs[ins[1]] = enc.const(input_name(inputs, ins[2]))
+        elif k == "const":
+            regs[ins[1]] = bv(ins[2])
+        elif k == "copy":
+            regs[ins[1]] = rd(ins[2])
+        elif k == "load":
+            if ins[2] not in mem:
+                mem[ins[2]] = enc.const("bmjunk%d_%d" % (pid, ins[2]))
+            regs[ins[1]] = mem[ins[2]]
+        elif k == "store":
+            mem[ins[2]] = rd(ins[1])
+        elif k == "un":
+            regs[ins[2]] = enc.define("b%d" % pid, enc.base(ins[1], rd(ins[3])))
+        elif k == "bin":
+            regs[ins[2]] = enc.define("b%d" % pid, enc.base(ins[1], opnd(ins[3]), opnd(ins[4])))
+    return outs
+
+
+def work_bytecode(chunk):
+    """chunk: list of (alloc record, bytecode record, optable)."""
+    solver = _get_solver(True)
+    out = []
+    t0 = solver.time_s
+    for rec, bc, optable in chunk:
+        r = {"id": rec["id"], "problems": [], "status": "unsat"}
+        if "words" not in bc:
+            r["status"] = "fail"
+            r["problems"].append("Bytecode::new failed: %s" % (bc.get("error") or bc.get("panic")))
+            out.append(r)
+            continue
+        prog, problems = decode_bytecode(bc["words"], optable, bc["reg_count"], bc["mem_count"])
+        r["problems"] += problems
+        enc = Enc(fp=False, mode="base")
+        try:
+            oa, _, _ = sym_reg(enc, 0, rec["reg"])
+            ob = sym_bytecode(enc, 1, prog)
+        except Exception as e:
+            r["status"] = "error"
+            r["problems"].append(repr(e))
+            out.append(r)
+            continue
+        xs = sorted(c for c in enc.consts if c.startswith("x"))
+        res, model = query(solver, enc, neq_outputs(oa, ob), xs)
+        r["status"] = res
+        r["has_mem"] = any(i[0] in ("load", "store") for i in prog)
+        if res == "sat":
+            r["model"] = model
+        out.append(r)
+    return out, solver.time_s - t0, len(chunk)
